@@ -54,6 +54,7 @@ from ..ast.fpyast import (
     Stmt,
     StmtBlock,
     Var,
+    WhileStmt,
 )
 from ..ast.visitor import DefaultTransformVisitor
 from ..utils import Gensym
@@ -147,6 +148,13 @@ class _ReduceFusionInstance(DefaultTransformVisitor):
         iterables = [self._visit_expr(i, None) for i in e.iterables]
         elt = self._visit_expr(e.elt, None)
         return ListComp(targets, iterables, elt, e.loc)
+
+    def _visit_while(self, stmt: WhileStmt, ctx: Any) -> tuple[WhileStmt, Any]:
+        # The condition is evaluated before every iteration; a loop hoisted
+        # out of it would run once, ahead of the `while`.
+        cond = self._visit_expr(stmt.cond, None)
+        body, _ = self._visit_block(stmt.body, ctx)
+        return WhileStmt(cond, body, stmt.loc), ctx
 
     def _visit_if_expr(self, e: IfExpr, ctx: Any) -> IfExpr:
         # The branches are conditional; hoisting a loop out of one would run
